@@ -28,7 +28,7 @@ CHECKS = {
     "C01": {
         "pkg": "c01",
         "rule": "rapid-generated configurations and multi-round source histories driving the real sync.Run in a synctest bubble.",
-        "assumptions": ["the system clock and the clock discipline are replaced by a scripted clock (Drift = rate x interval, or unknown) and a recorder", "NaN impact factors are not generated (outside 'admissible configurations')", "offsets of magnitude >= 2^62 are generated but exempt from the exact reference model (only the bound is asserted)"],
+        "assumptions": ["the system clock and the clock discipline are replaced by a scripted clock (Drift = rate x interval, or unknown) and a recorder", "NaN impact factors are generated among the inadmissible configurations", "offsets of magnitude >= 2^62 are generated but exempt from the exact reference model (only the bound is asserted)"],
         "timeout_quick": 400, "timeout_thorough": 1800,
     },
     "C17": {
@@ -40,7 +40,7 @@ CHECKS = {
     "C19": {
         "pkg": "c19",
         "rule": "rapid-generated update histories driving the real PLL against a recording fake clock.",
-        "assumptions": ["clock readings are non-decreasing and consecutive updates are at most 1e5 s apart (a gap of ~292 years overflows the duration conversion; outside any realistic history)", "MinInt64 offsets are exempt from the 'by exactly the offset' clause (negation saturates by design)"],
+        "assumptions": ["clock readings are non-decreasing; gaps between updates range up to 584 years (beyond what a duration can express)", "MinInt64 offsets are exempt from the 'by exactly the offset' clause (negation saturates by design)"],
         "timeout_quick": 400, "timeout_thorough": 1800,
     },
     "C12": {
@@ -68,7 +68,7 @@ CHECKS = {
         "pkg": "c07", "shards": 6, "mem_gb": 6,
         "parts": [{"pkg": "c07"}, {"pkg": "c07c", "race": True, "shards": 8}],
         "rule": "rapid state machine (structure), capacity/eviction model at the real 2^20 capacity, concurrent batches with the race detector.",
-        "assumptions": ["timestamp order is the implementation's plain (seconds, fraction) order (LessV), as the statement says", "schedules are those the Go runtime produces; not enumerated"],
+        "assumptions": ["recency is the order of the instants the timestamps stand for (all instants of a case lie within seconds of its base time, which is next to an NTP era boundary in three of four cases)", "schedules are those the Go runtime produces; not enumerated"],
         "timeout_quick": 600, "timeout_thorough": 2400,
     },
     "C10": {
@@ -94,7 +94,7 @@ CHECKS = {
         # c20d: where the NTP request goes after the exchange (fixed ports on loopback: one process only)
         "parts": [{"pkg": "c20"}, {"pkg": "c20d", "shards": 1}, {"pkg": "c20q", "shards": 1}],
         "rule": "rapid state machine of FetchData calls on the real fetcher against a scripted TLS key-exchange server; truncation sweep.",
-        "assumptions": ["TLS 1.3 with a run-time self-signed certificate and InsecureSkipVerify (certificate validation is configuration of the callers)", "AEAD records carry one algorithm id; warning records are not judged (a client may treat them as errors)", "QUIC/SCION transport of the key exchange is exercised on loopback within one AS only (empty path, no daemon)"],
+        "assumptions": ["TLS 1.3 with a run-time self-signed certificate and InsecureSkipVerify (certificate validation is configuration of the callers)", "AEAD records with several ids (or a stray byte) make success admissible when algorithm 15 is among them and forbid it otherwise; warning records are not judged (a client may treat them as errors)", "QUIC/SCION transport of the key exchange is exercised on loopback within one AS only (empty path, no daemon)"],
         "timeout_quick": 600, "timeout_thorough": 2400,
     },
     "C11": {
@@ -106,7 +106,7 @@ CHECKS = {
     "C05": {
         "pkg": "c05", "shards": 8,
         "rule": "rapid-generated delivery scripts of mutated replies injected by the harness's server model into the real IP client (plain and NTS).",
-        "assumptions": ["datagrams from another port of the queried address are generated but not judged", "IP transport; SCION source/destination and packet-authenticator checks are part of C13"],
+        "assumptions": ["datagrams from another port of the queried address are generated but not judged", "IP and SCION transport; SCION packet-authenticator checks are part of C13"],
         "timeout_quick": 600, "timeout_thorough": 2400,
     },
     "C13": {
